@@ -58,16 +58,16 @@ for _p in ["C%02d" % i for i in range(1, 21)]:
         NOT_APPLICABLE[_p] = "check under construction (see DESIGN.md section 4); not claimed until its obligations run"
 
 P("C05", "model_checking", native=True, kani={"timeout": "900s"},
-  bounded="programs: depth profiles n<=3 (quick: d<=2 plus selected d=3; thorough: d<=3 plus n=4 samples), Option/Result sync and Result async; every (branch, step) failure flag and payload symbolic",
+  bounded="native family rand_diff (48 / 240 random programs x sampled inputs against the staged reference, see C01); programs: depth profiles n<=3 (quick: d<=2 plus selected d=3; thorough: d<=3 plus n=4 samples), Option/Result sync and Result async; every (branch, step) failure flag and payload symbolic",
   unbounded="the transposer that turns the per-branch results into one Option/Result is r0.and_then(|r0| r1.and_then(|r1| .. rn.map(|rn| (all values)))) for ANY number of branches (generate_results_transposer, R13 desugaring of iter().rev().fold()): branch k is examined before every later one and the tuple is reached only when all succeeded; join_steps (module steps): in a transposing try macro the failure test of a step looks at exactly the ACTIVE branches in branch order, arm k hands back the failure of the k-th active branch with its payload untouched (r.map(|_| unreachable!())), and the next step sits ONLY in the else branch",
   not_decided="thread / tokio schedules beyond the native sweeps; the run-time meaning of the emitted tokens is rustc's")
 
 P("C06", "model_checking", native=True, kani={"timeout": "900s"},
-  unbounded="the step structure the abort acts on: split_steps (see C03) and the transport of the `~` mark; join_steps: the next step sits ONLY in the success continuation of the failure test; generate_steps: step k+1 is nested in that continuation of step k for any number of steps, so a failed step skips all later ones",
+  unbounded="native family rand_diff (48 / 240 random programs x sampled inputs against the staged reference, see C01); the step structure the abort acts on: split_steps (see C03) and the transport of the `~` mark; join_steps: the next step sits ONLY in the success continuation of the failure test; generate_steps: step k+1 is nested in that continuation of step k for any number of steps, so a failed step skips all later ones",
   bounded="same programs as C05; trace contract: exact event sequence of the staged reference (sync), no event of a step after the failing one (async)",
   not_decided="spawn kinds (threads / tokio tasks)")
 P("C04", "model_checking", native=True, kani={"timeout": "900s"},
-  bounded="depth profiles n<=3 (+n=4 samples), d<=3; join!/try_join!/join_async!/try_join_async!, with then/map/and_then handlers and let patterns; values symbolic",
+  bounded="native family rand_diff (48 / 240 random programs x sampled inputs against the staged reference, see C01); depth profiles n<=3 (+n=4 samples), d<=3; join!/try_join!/join_async!/try_join_async!, with then/map/and_then handlers and let patterns; values symbolic",
   unbounded="join_steps verified against a token-level spec (module steps): which branches a step checks / re-wraps / hands on, in which order, where the next step goes, the final tuple over ALL branches in branch order; the three index functions and the step destructuring: active_step_branch_count == #{i: depth_i > step} (R13 desugaring of iter/filter/count), step_results.k is indexed over active branches only, extract_results_tuple names exactly the active branches in branch order (R13 desugaring of the lazy filter with its counting closure) and hands ALL result names to the handler in branch order",
   not_decided="tokio-spawn kinds beyond the native sweeps; the glue of generate_step between its verified pieces")
 
@@ -76,7 +76,7 @@ P("C09", "model_checking", native=True, kani={"timeout": "1200s"},
   bounded="join_async!/try_join_async!, profiles n<=3 d<=2 (thorough: d<=3, n=4 sample), one harness-controlled gate per (branch, step) with symbolic pending count <= 1: every readiness pattern incl. batches; polls <= 1 + sum_s max_i p_is",
   not_decided="tokio-task variants beyond the 6 native programs of spawn_sweep (one schedule each, 20 s timeout); unbounded liveness")
 P("C03", "model_checking", native=True, kani={"timeout": "1200s"},
-  unbounded="where a step begins: the fold of JoinOutput::new that splits a branch (R15 lifted closure + R13) computes split_steps(members) - a new step at every member carrying the `~` mark and nowhere else, order kept; the mark reaches it unchanged (parse_until suffix, ActionGroup::parse_stream, to_wrapper_action_expr: action == self, ExprGroup::application_type)",
+  unbounded="native family rand_diff (48 / 240 random programs x sampled inputs against the staged reference, see C01); where a step begins: the fold of JoinOutput::new that splits a branch (R15 lifted closure + R13) computes split_steps(members) - a new step at every member carrying the `~` mark and nowhere else, order kept; the mark reaches it unchanged (parse_until suffix, ActionGroup::parse_stream, to_wrapper_action_expr: action == self, ExprGroup::application_type)",
   bounded="sync: profiles n<=3 d<=3 with 7 operator kinds rotating over positions (incl. deferred error operators), exact staged trace; async: same gate programs as C09, monotone step numbers in the trace",
   not_decided="OS-thread interleavings and tokio task schedules (Kani has no thread support)")
 
